@@ -142,6 +142,9 @@ CLAIMED["C43"] = ("jaxpr->SMT (z3) of Sphere / Cylinder get_voxel_mask_for_shape
                   "bounded SMT verification: a cell is marked exactly when its centre (from the harness's own edges) lies strictly inside the analytic ellipsoid / cylinder, for all positive radii (strictness at the surface decided exactly on dyadic grids)",
                   "ExtrudedPolygon delegates to matplotlib's compiled path code: NOT covered; grids <= 5^3", "4/C43")
 
+PYSYM_ONLY = {"C26", "C27", "C31", "C34", "C37", "C39", "C40"}
+PYSYM_ALSO = {"C05", "C14", "C28", "C29", "C35", "C41"}
+
 NOT_APPLICABLE = {
     "C12": "numerical accuracy bound (1e-6 residual energy after >=1e3 steps on >=40^3 cells in floating point); no algebraic identity, far beyond any bounded real-arithmetic encoding",
     "C13": "1e-3 power-ratio bound after hundreds of steps (TFSF leakage is small but non-zero by design); not an identity, out of reach for bounded real arithmetic",
@@ -170,8 +173,12 @@ def main():
                    baseline_off_cmd="cd /repo && /venv/bin/python -m pytest -ra -q -p no:cacheprovider --timeout=900 --continue-on-collection-errors",
                    source_commits=[], add_only=True),
         engines=[
-            dict(name="jx2smt", path="vf/jx2smt.py", kind_free_text="jaxpr (traced from /repo/src on every run) interpreted over z3 Real/Bool/Int terms and exact rationals; z3 verdict per obligation", serves_properties=sorted(CLAIMED)),
-            dict(name="pysym", path="vf/pysym.py", kind_free_text="concolic execution of the real Python source with z3-backed symbolic ints/reals, exhaustive DFS over feasible paths", serves_properties=[]),
+            dict(name="jx2smt", path="vf/jx2smt.py", kind_free_text="jaxpr (traced from /repo/src on every run) interpreted over z3 Real/Bool/Int terms and exact rationals; z3 verdict per obligation",
+                 serves_properties=sorted(p for p in CLAIMED if p not in PYSYM_ONLY)),
+            dict(name="pysym", path="vf/pysym.py", kind_free_text="concolic execution of the real Python source with z3-backed symbolic ints/reals, exhaustive DFS over feasible paths",
+                 serves_properties=sorted(p for p in CLAIMED if p in PYSYM_ONLY or p in PYSYM_ALSO)),
+            dict(name="fpsym", path="vf/fpsym.py", kind_free_text="float64-accurate symbolic scalars (bit-vector ints, z3 Float64 terms with CPython semantics) for properties about float rounding itself; queries in QF_BVFP",
+                 serves_properties=["C05"]),
         ],
         checks=checks, not_applicable=na,
         notes="exit 0 held / only known findings; 1 VIOLATION (replayed on the real code); 3 inconclusive or harness error. Evidence level 'other' = bounded SMT verification (never called proof).",
